@@ -501,7 +501,7 @@ func c09EnumPrograms() []*Program {
 		}
 	}
 	// literals built inside loops from the loop variable
-	for _, it := range []Expr{Arr(S("x"), S("y"), S("z")), Arr(N("1"), N("2"), N("3")), S("abc"), &ObjectLit{Keys: []string{"p", "q"}, Quoted: []bool{false, false}, Vals: []Expr{S("u"), S("v")}}} {
+	for _, it := range []Expr{Arr(S("x"), S("y"), S("z")), Arr(N("1"), N("2"), N("3")), S("abc"), obj1("p", S("u"))} { // a one-key object: the order in which several keys are visited is not stated
 		for li := 0; li < 2; li++ {
 			var lit Expr = obj1("key", V("k"))
 			if li == 1 {
